@@ -38,7 +38,8 @@ def pendingish (w : W) : Bool := w.st == sPending || w.st == sBoost
 inductive StsPc where
   | out
   | entered (o : Nat)
-  | loaded (o : Nat) (w : W)        -- `previous_state = get_state()` returned w
+  | loaded (o : Nat) (w : W) (le : Nat)  -- `previous_state = get_state()` returned w (when the
+                                         -- target's epoch was le; ghost)
   | won (o : Nat)                    -- its CAS made the target pending; must schedule it
   deriving DecidableEq, Repr
 
@@ -54,13 +55,18 @@ structure Obj where
   holder : Option Nat := none   -- actor that popped the entry and has not tried to activate yet
   hexp : W := ⟨0, 0, 0⟩         -- the word that actor loaded after the pop
   pusher : Option Nat := none   -- actor that made it pending and owes the queue insertion
-  helpers : List W := []        -- words remembered by outstanding set_active_state helpers
+  helpers : List (W × Nat) := []  -- words remembered by outstanding set_active_state helpers,
+                                  -- with the epoch at which that word was observed (ghost)
   epoch : Nat := 0              -- number of transitions into a pending state so far
   deriving Repr
 
 structure Actor where
   sts : StsPc := .out
-  sas : Option (Nat × W × W) := none   -- inside set_active_state: (object, loaded word, remembered word)
+  issue : Option Nat := none    -- ghost: epoch of the target when the current wake request was
+                                -- issued (none: the target was pending / terminated then)
+  sas : Option (Nat × W × W × Nat × Nat) := none
+    -- inside set_active_state: (object, loaded word, remembered word, ghost epochs of the
+    -- remembered observation and of this load)
   deriving Repr
 
 inductive Ev where
@@ -119,7 +125,7 @@ def step (s : St) : Ev → Option St
     if x.live ∧ x.w.st = sPending ∧ ((x.fresh ∧ x.q = 0) ∨ x.pusher = some a) then
       let ac := s.act a
       some { obj := upd s.obj o { x with q := x.q + 1, fresh := false, pusher := none },
-             act := upd s.act a ({ ac with sts := (if ac.sts = .won o then .loaded o x.w else ac.sts) }) }
+             act := upd s.act a ({ ac with sts := (if ac.sts = .won o then .loaded o x.w x.epoch else ac.sts) }) }
     else none
   | .got a o e fromNext =>
     -- the scheduling loop took thread o (from a queue, or directly as `next_thrd`) and loaded its
@@ -187,15 +193,16 @@ def step (s : St) : Ev → Option St
     let x := s.obj o
     let ac := s.act a
     if x.live ∧ ac.sts = .out ∧ ns = sPending then
-      some { s with act := upd s.act a ({ ac with sts := .entered o }) }
+      let iss : Option Nat := if pendingish x.w || x.w.st == sTerminated then none else some x.epoch
+      some { s with act := upd s.act a ({ ac with sts := .entered o, issue := iss }) }
     else none
   | .stsLoad a o w =>
     let x := s.obj o
     let ac := s.act a
     if x.live ∧ w = x.w then
       match ac.sts with
-      | .entered o' => if o' = o then some { s with act := upd s.act a ({ ac with sts := .loaded o w }) } else none
-      | .loaded o' _ => if o' = o then some { s with act := upd s.act a ({ ac with sts := .loaded o w }) } else none
+      | .entered o' => if o' = o then some { s with act := upd s.act a ({ ac with sts := .loaded o w x.epoch }) } else none
+      | .loaded o' _ _ => if o' = o then some { s with act := upd s.act a ({ ac with sts := .loaded o w x.epoch }) } else none
       | _ => none
     else none
   | .restore2 a o before after =>
@@ -204,14 +211,14 @@ def step (s : St) : Ev → Option St
     let x := s.obj o
     let ac := s.act a
     match ac.sts with
-    | .loaded o' lw =>
+    | .loaded o' lw le =>
       if o' = o ∧ x.live ∧ before = x.w ∧ lw.st = sBoost then
         -- target is between store_state(pending_boost) and the loop's set_state(pending):
         -- the exchange makes it pending; nothing is scheduled (the previous state was pending too)
         if x.w = lw then
           if after.st = sPending ∧ after.tag = lw.tag + 1 then
             some { obj := upd s.obj o { x with w := after },
-                   act := upd s.act a ({ ac with sts := .loaded o after }) }
+                   act := upd s.act a ({ ac with sts := .loaded o after x.epoch }) }
           else none
         else if after = before then some s
         else none
@@ -229,9 +236,9 @@ def step (s : St) : Ev → Option St
     -- "old state is the same as new state" / "thread is terminated": nothing to do
     let ac := s.act a
     match ac.sts with
-    | .loaded o' lw =>
+    | .loaded o' lw le =>
       if o' = o ∧ (lw.st = sPending ∨ lw.st = sTerminated) then
-        some { s with act := upd s.act a ({ ac with sts := .out }) }
+        some { s with act := upd s.act a ({ ac with sts := .out, issue := none }) }
       else none
     | _ => none
   | .stsHelper a o =>
@@ -239,34 +246,37 @@ def step (s : St) : Ev → Option St
     let x := s.obj o
     let ac := s.act a
     match ac.sts with
-    | .loaded o' lw =>
+    | .loaded o' lw le =>
       if o' = o ∧ lw.st = sActive then
-        some { obj := upd s.obj o { x with helpers := lw :: x.helpers },
-               act := upd s.act a ({ ac with sts := .out }) }
+        some { obj := upd s.obj o { x with helpers := (lw, le) :: x.helpers },
+               act := upd s.act a ({ ac with sts := .out, issue := none }) }
       else none
     | _ => none
   | .stsDone a o =>
     -- normal return: the CAS succeeded and the thread has been queued (push moved `won` to `loaded`)
     let ac := s.act a
     match ac.sts with
-    | .loaded o' lw =>
+    | .loaded o' lw le =>
       if o' = o ∧ pendingish lw then
-        some { s with act := upd s.act a ({ ac with sts := .out }) }
+        some { s with act := upd s.act a ({ ac with sts := .out, issue := none }) }
       else none
     | _ => none
   | .sasLoad a o cur prev =>
     -- helper task: `current_state = get_state()`; `prev` is the word it was created with
     let x := s.obj o
     let ac := s.act a
-    if x.live ∧ cur = x.w ∧ prev ∈ x.helpers ∧ ac.sas = none then
-      some { obj := upd s.obj o { x with helpers := x.helpers.erase prev },
-             act := upd s.act a ({ ac with sas := some (o, cur, prev) }) }
+    if x.live ∧ cur = x.w ∧ ac.sas = none then
+      match x.helpers.find? (fun h => h.1 == prev) with
+      | some h =>
+        some { obj := upd s.obj o { x with helpers := x.helpers.erase h },
+               act := upd s.act a ({ ac with sas := some (o, cur, prev, h.2, x.epoch) }) }
+      | none => none
     else none
   | .sasAbort a o =>
     -- `current.state() == previous.state() && current != previous`: the helper gives up
     let ac := s.act a
     match ac.sas with
-    | some (o', cur, prev) =>
+    | some (o', cur, prev, _, _) =>
       if o' = o ∧ cur.st = prev.st ∧ cur ≠ prev then
         some { s with act := upd s.act a ({ ac with sas := none }) }
       else none
@@ -274,7 +284,7 @@ def step (s : St) : Ev → Option St
   | .sasRetry a o =>
     let ac := s.act a
     match ac.sas with
-    | some (o', cur, prev) =>
+    | some (o', cur, prev, _, _) =>
       if o' = o ∧ ¬ (cur.st = prev.st ∧ cur ≠ prev) then
         some { s with act := upd s.act a ({ ac with sas := none }) }
       else none
